@@ -63,6 +63,13 @@ func addHTTPIntrinsics(t map[string]intrinsic) {
 		viaHarness("github.com/pquerna/cachecontrol.CachableResponse", "VerifCachableResponse")
 		viaHarness("net/http/httputil.DumpResponse", "VerifDumpResponse")
 		viaHarness("net/http.ReadResponse", "VerifReadResponse")
+		// DER parsing of key store material (C19): the parsed objects are what the harness says they are
+		viaHarness("crypto/x509.ParsePKCS8PrivateKey", "VerifParsePKCS8PrivateKey")
+		viaHarness("crypto/x509.ParseCertificate", "VerifParseCertificate")
+		viaHarness("(*crypto/ecdsa.PublicKey).Equal", "VerifECPublicKeyEqual")
+		// gocloud bucket listing (cloud_blob provider): the bucket is what the harness says it is
+		viaHarness("(*gocloud.dev/blob.Bucket).List", "VerifBucketList")
+		viaHarness("(*gocloud.dev/blob.ListIterator).Next", "VerifBucketListNext")
 		t["(*go.opentelemetry.io/contrib/instrumentation/net/http/otelhttp.Transport).RoundTrip"] = func(m *Machine, fr *frame, a []Value) Value {
 			return m.harnessRoundTrip(fr, a[1])
 		}
